@@ -35,6 +35,10 @@ var solvers = []solverSpec{
 		return []string{"cvc5", fmt.Sprintf("--tlimit=%d", t*1000), "--lang=smt2", f}
 	}, pre: "(set-logic ALL)\n"},
 	{name: "z3", args: func(t int, f string) []string { return []string{"z3", fmt.Sprintf("-T:%d", t), f} }},
+	// same solver, different random seed: guards against seed-dependent timeouts
+	{name: "z3-new/seed7", args: func(t int, f string) []string {
+		return []string{"z3-new", fmt.Sprintf("-T:%d", t), "smt.random_seed=7", "sat.random_seed=7", f}
+	}},
 }
 
 var workDir string
@@ -115,7 +119,7 @@ func solve(name, script string, timeoutS int, need int) *SolveResult {
 	for _, sp := range solvers {
 		sp := sp
 		go func() {
-			file := fmt.Sprintf("%s.%s.smt2", base, sp.name)
+			file := fmt.Sprintf("%s.%s.smt2", base, sanitize(sp.name))
 			st, out, secs := runSolver(ctx, sp, script, timeoutS, file)
 			ch <- ans{sp, st, out, secs}
 		}()
